@@ -8,6 +8,60 @@ from engine.rulekit import scans
 from rules import anchors as A
 
 
+def _returned_by_search(F, maker):
+    """Every value the allocator returns is the element an iterator search found with the predicate "no existing namespace has this
+    abbreviation": `candidates.find(|c| !existing.iter().any(|ns| ns.abbreviation == *c))`; a default given for "nothing found"
+    (`unwrap_or(x)`) is accepted only where the candidates cannot run out (a `successors` sequence whose step always yields Some)."""
+    try:
+        rets = og.returned_values(F, maker)
+    except og.Unrecognised:
+        return False
+    if not rets:
+        return False
+
+    def tested(find_nf):
+        src, cond = find_nf[2]
+        c, neg = cond, False
+        while isinstance(c, tuple) and c[0] == "not":
+            c, neg = c[1], not neg
+        if not (neg and isinstance(c, tuple) and c[0] == "call" and c[1] == "iter::any" and len(c[2]) == 2):
+            return False
+        hay, pred = c[2]
+        if "existing" not in og.nf_str(hay) and not (isinstance(hay, tuple) and og.nf_roots(hay) and all(r[0] == "param" for r in og.nf_roots(hay))):
+            return False
+        if not (isinstance(pred, tuple) and pred[0] == "binop" and pred[1] == "Eq"):
+            return False
+        sides = [og.nf_str(pred[2]), og.nf_str(pred[3])]
+        return any(x.endswith(".abbreviation") for x in sides) and any("each(" in x and ".abbreviation" not in x for x in sides)
+
+    def endless(src):
+        for it in og._list_items(src):
+            if it[0] == "star":
+                base = it[1]
+                for c in og.nf_calls(base):
+                    if str(c[1]).endswith("iter::successors") and len(c[2]) == 2 and isinstance(c[2][1], tuple) and c[2][1][0] == "closure":
+                        body = og.apply_closure_value(og.NF(F), c[2][1], [("param", "_n")])
+                        if isinstance(body, tuple) and body[0] == "call" and body[1] == "Some":
+                            return True
+        return False
+
+    def ok(v, depth=0):
+        if not isinstance(v, tuple) or depth > 6:
+            return False
+        if v[0] == "ifelse":
+            return ok(v[2], depth + 1) and ok(v[3], depth + 1)
+        if v[0] == "call" and str(v[1]).rsplit("::", 1)[-1] in ("clone", "to_string", "to_owned", "into_owned", "into") and len(v[2]) == 1:
+            return ok(v[2][0], depth + 1)
+        if v[0] == "payload" and isinstance(v[2], tuple) and v[2][0] == "call" and v[2][1] == "iter::find" and len(v[2][2]) == 2:
+            return tested(v[2])
+        if v[0] == "call" and str(v[1]).rsplit("::", 1)[-1] in ("unwrap_or", "unwrap_or_else", "unwrap_or_default", "unwrap", "expect") and v[2] \
+                and isinstance(v[2][0], tuple) and v[2][0][0] == "call" and v[2][0][1] == "iter::find" and len(v[2][0][2]) == 2:
+            f = v[2][0]
+            return tested(f) and (str(v[1]).rsplit("::", 1)[-1] in ("unwrap", "expect") or endless(f[2][0]))
+        return False
+    return all(v is not None and ok(v) for _site, v in rets)
+
+
 def _origin_key(o):
     """where a value comes from, comparable between two traces of one body (None: nothing to compare by)"""
     if o.kind == "call":
@@ -128,6 +182,8 @@ def run(ck, F):
                 free_arm = _arm_when_false(B, cbb, ct)
                 if free_arm is not None and B.dominates(free_arm, rb):
                     ok = True
+        if not ok and _returned_by_search(F, MAKE):
+            ok = True      # the value is what `find(|c| !existing.iter().any(|ns| ns.abbreviation == *c))` found
         if ok:
             ck.ok("R1", "return-tested-unused", s.get("sp", fb["span"]), "the returned abbreviation was tested not to occur in `existing`", fn="")
         else:
